@@ -105,9 +105,10 @@ class C10(LoopSpec):
             return [mkjob("R1", 3, True, fms=True), mkjob("R2", 3, True, fms=True, use_teleop_in_autonomous=True), mkjob("R5", 3, False, fms=True),
                     mkjob("R1", 3, True, fms=True, faults=1, fault_patterns=["always"],
                           fault_sites=["robot.teleopPeriodic", "c1.execute", "c2.execute", "robot.robotPeriodic", "auto.on_iteration"])]
-        return [mkjob("R1", 4, True, fms=True), mkjob("R2", 4, True, fms=True), mkjob("R3", 4, True, fms=True), mkjob("R5", 4, True, fms=True),
-                mkjob("R2", 3, True, fms=True, faults=2, fault_patterns=["always", "first"],
-                      fault_sites=["robot.teleopPeriodic", "c1.execute", "c2.execute", "robot.robotPeriodic", "auto.on_iteration", "c1.fb_probe"])]
+        fs = ["robot.teleopPeriodic", "c1.execute", "c2.execute", "robot.robotPeriodic", "auto.on_iteration", "c1.fb_probe"]
+        return [mkjob("R1", 4, True, fms=True), mkjob("R2", 3, True, fms=True), mkjob("R3", 3, True, fms=True), mkjob("R5", 3, True, fms=True),
+                mkjob("R2", 3, True, fms=True, faults=1, fault_patterns=["always", "first", "later"], fault_sites=fs),
+                mkjob("R1", 2, True, fms=True, faults=2, fault_patterns=["always"], fault_sites=fs[:4])]
 
     def reach_required(self, tier):
         return ["read", "write", "read-sees-same-iteration-write", "enabled-iteration-end"]
